@@ -169,7 +169,16 @@ fn main() {
         lee_rank(&run, name, d);
     });
     // ---- knots ------------------------------------------------------------------------------------------
-    let knots: Vec<(String, Diagram)> = fam.into_iter().filter(|(_, d)| is_knot(d)).collect();
+    let mut knots: Vec<(String, Diagram)> = fam.into_iter().filter(|(_, d)| is_knot(d)).collect();
+    // the repository's knot table with <= 8 (thorough 10) crossings and the mirrors, each twice
+    // (hash-seeded elimination order: a defect that depends on the pivot taken shows in some runs only).
+    // Names start with "table": these get the reverse-all move and the full list of c.
+    for (name, d) in table_family(if th { 10 } else { 8 }, false) {
+        for rep in 0..2 {
+            knots.push((format!("{name}#{rep}"), d.clone()));
+            knots.push((format!("{name}:mirror#{rep}"), d.mirror()));
+        }
+    }
     run.add("knots", knots.len() as u64);
     run.par_for(knots.len(), |i| {
         if run.over_budget() {
@@ -198,7 +207,7 @@ fn main() {
         } else {
             vec![("reverse-all".to_string(), d.reverse_all())]
         };
-        let cs: &[C] = if d.n <= 3 || th { &[C::Z2, C::Z3, C::F2H, C::F3H, C::QH] } else { &[C::Z2, C::F2H] };
+        let cs: &[C] = if d.n <= 3 || th || name.starts_with("table") { &[C::Z2, C::Z3, C::F2H, C::F3H, C::QH] } else { &[C::Z2, C::F2H] };
         check_ss(&run, name, d, cs, &moves);
     });
     // braid-level moves for the s-invariant (R2, R3, Markov)
@@ -226,7 +235,7 @@ fn main() {
     let coverage = json!({
         "evaluations": run.get("evaluations"),
         "distinct_nontrivial": run.get("links") + run.get("knots"),
-        "rule": "all planar diagrams with <= 3 (thorough 4) crossings + braid closures: Lee homology rank for every link; for every 1-component diagram: canonical cycles (degree 0, cycles, non-torsion for h != 0; h in {0,1,2,3} over Z, h = H over Q[H], F2[H], h = 1 over F3; reduced and unreduced) and the s-type invariant for c in {2,3} over Z and c = H over F2[H], F3[H], Q[H]: reduced = unreduced, mirror negates, invariant along every PD move edge and every braid move (R2, R3, commutation, conjugation, Markov), and ss(K-) <= ss(K+) <= ss(K-)+2 for every positive crossing of every diagram",
+        "rule": "all planar diagrams with <= 3 (thorough 4) crossings + braid closures (+ for the knot part every table knot with <= 8 (thorough 10) crossings and its mirror, twice each): Lee homology rank for every link; for every 1-component diagram: canonical cycles (degree 0, cycles, non-torsion for h != 0; h in {0,1,2,3} over Z, h = H over Q[H], F2[H], h = 1 over F3; reduced and unreduced) and the s-type invariant for c in {2,3} over Z and c = H over F2[H], F3[H], Q[H]: reduced = unreduced, mirror negates, invariant along every PD move edge and every braid move (R2, R3, commutation, conjugation, Markov), and ss(K-) <= ss(K+) <= ss(K-)+2 for every positive crossing of every diagram",
         "knots": run.get("knots"),
         "move_edges": run.get("move_edges"),
         "crossing_changes": run.get("crossing_changes"),
